@@ -50,7 +50,8 @@ def op_shape(op):
     if k == "tag":
         return "tag(" + op["cid"][0] + ")"
     if k == "dii":
-        return f"dii(checksum={op.get('checksum')},size={op.get('size', 'ok')},meta={op.get('meta_algos', 'default')})"
+        return f"dii(checksum={op.get('checksum')},size={op.get('size', 'ok')},meta={op.get('meta_algos', 'default')}" + \
+            (",cid=UPPER)" if op.get("cid_case") == "upper" else ")")
     if k in ("smeta", "rmeta", "dmeta"):
         return f"{k}({'default' if op.get('fmt') is None else 'fmt'})"
     return k
@@ -110,17 +111,24 @@ def random_object_op(rng, pids, content_names, fake_cids=(1, 2), kinds=("path", 
     if r < 0.38:
         return {"op": "store", "pid": None, "content": rng.choice(content_names), "kind": rng.choice(kinds)}
     if r < 0.52:
-        if rng.random() < 0.75:
+        q = rng.random()
+        if q < 0.7:
             return {"op": "tag", "pid": rng.choice(pids), "cid": ["of", rng.choice(content_names)]}
+        if q < 0.8:
+            return {"op": "tag", "pid": rng.choice(pids), "cid": ["upper", rng.choice(content_names)]}
         return {"op": "tag", "pid": rng.choice(pids), "cid": ["fake", rng.choice(fake_cids)]}
     if r < 0.78:
         return {"op": "delete", "pid": rng.choice(pids)}
     if r < 0.90:
         algo = rng.choice(DEFAULT_ALGOS + OTHER_ALGOS[:2])
-        return {"op": "dii", "content": rng.choice(content_names),
-                "checksum": rng.choice(["ok", "wrong", "upper"]), "calgo": spelling(rng, algo),
-                "size": rng.choice(["ok", "ok", "wrong"]),
-                "meta_algos": rng.choice(["default", "with_calgo"])}
+        op = {"op": "dii", "content": rng.choice(content_names),
+              "checksum": rng.choice(["ok", "wrong", "upper"]), "calgo": spelling(rng, algo),
+              "size": rng.choice(["ok", "ok", "wrong"]),
+              "meta_algos": rng.choice(["default", "with_calgo"])}
+        if rng.random() < 0.15:
+            op["cid_case"] = "upper"
+            op["meta_algos"] = "with_calgo"
+        return op
     if r < 0.95:
         return {"op": "retrieve", "pid": rng.choice(pids)}
     return {"op": "hexdigest", "pid": rng.choice(pids), "algo": spelling(rng, rng.choice(ALL_ALGOS))}
